@@ -423,6 +423,51 @@ pub fn c04_set_drops<const N: usize>() {
     done(panicked);
 }
 
+/// internal iteration (for_each / fold / all) over the consuming iterators and the drain with a panicking user closure
+/// or element destructor: an override of a provided method has to be as panic-safe as stepping with `next()`
+pub fn c04_internal<const N: usize, const OP: u8>() {
+    tok::reset();
+    let (mut m, _md) = any_map::<N>();
+    arm();
+    let panicked = match OP {
+        0 => vf::catch(move || { m_take(&mut m).into_iter().for_each(|(k, v)| { tok::fault_point(); drop(k); drop(v); }); }),
+        1 => vf::catch(move || { let n = m_take(&mut m).into_keys().fold(0usize, |a, k| { tok::fault_point(); drop(k); a + 1 }); vf::check(n <= N, 601); }),
+        2 => vf::catch(move || { m_take(&mut m).into_values().for_each(|v| { tok::fault_point(); drop(v); }); }),
+        3 => vf::catch(move || { let mut it = m_take(&mut m).into_iter(); let _ = it.all(|(k, _v)| { tok::fault_point(); k.key() != 7 }); drop(it); }),
+        _ => {
+            let mm = &mut m;
+            let p = vf::catch(move || {
+                if OP == 4 { mm.drain().for_each(|(k, v)| { tok::fault_point(); drop(v); drop(k); }); }
+                else { let mut d = mm.drain(); let _ = d.any(|(k, _v)| { tok::fault_point(); k.key() == 7 }); drop(d); }
+            });
+            tok::disarm();
+            vf::check(m.len() == 0, 612);
+            survivor(&mut m);
+            drop(m);
+            p
+        }
+    };
+    done(panicked);
+}
+pub fn c04_set_internal<const N: usize, const OP: u8>() {
+    tok::reset();
+    let (mut s, _md) = any_set::<N>();
+    arm();
+    let panicked = match OP {
+        0 => vf::catch(move || { core::mem::replace(&mut s, Set::new()).into_iter().for_each(|k| { tok::fault_point(); drop(k); }); }),
+        _ => {
+            let ss = &mut s;
+            let p = vf::catch(move || { let n = ss.drain().fold(0usize, |a, k| { tok::fault_point(); drop(k); a + 1 }); vf::check(n <= N, 601); });
+            tok::disarm();
+            vf::check(s.len() == 0, 612);
+            survivor_set(&mut s);
+            drop(s);
+            p
+        }
+    };
+    done(panicked);
+}
+
 /// moves the map out of a `&mut` captured by a `move` closure (the closure then owns it)
 fn m_take<const N: usize>(m: &mut Map<Tok, Tok, N>) -> Map<Tok, Tok, N> { core::mem::replace(m, Map::new()) }
 
@@ -491,8 +536,12 @@ harnesses! {
     c04_drops: [1] [2] [3];
     c04_set_drops: [1] [2] [3];
     c04_disjoint: [1] [2] [3];
+    c04_internal: [2, 0] [2, 1] [2, 2] [2, 3] [2, 4] [2, 5] [3, 0] [3, 1] [3, 2] [3, 3] [3, 4] [3, 5];
+    c04_set_internal: [2, 0] [2, 1] [3, 0] [3, 1];
     c05_panics: [0] [1] [2] [3];
     @deep
+    c04_internal: [4, 0] [4, 1] [4, 2] [4, 3] [4, 4] [4, 5];
+    c04_set_internal: [4, 0] [4, 1];
     c04_clone: [4] [5] [6];
     c04_clone_from: [3];
     c04_clear: [4] [5] [6];
